@@ -346,7 +346,7 @@ pub fn msg_class() -> impl Strategy<Value = VClass> {
     ]
 }
 
-fn strategy(max_log_n: u8) -> BoxedStrategy<Case> {
+pub fn strategy(max_log_n: u8) -> BoxedStrategy<Case> {
     (
         (be_strategy(), 0u8..6, 3u8..=max_log_n, 1u8..=52, 1u8..=6, any::<u8>()),
         (0u8..=3, 1u8..=6, 1u8..=52, 1u8..=6),
